@@ -33,10 +33,10 @@ def handle (input : Json) : Except String Json := do
         let scope : Scope := { names := m.scopeNames }
         let ret := scope.suggest "ret"
         if !((testifyFns m ret).all EmitFn.wfb) then reasons := reasons ++ [s!"scope:{i.name}.{m.name}"]
-        -- the hard-coded testify import
-        if quals.contains "mock" then reasons := reasons ++ ["package-named-mock"]
       else
         if !((matryerFns m).all EmitFn.wfb) then reasons := reasons ++ [s!"scope:{i.name}.{m.name}"]
+        -- the receiver of every matryer method is called `mock`: it shadows a package of that name
+        if quals.contains "mock" then reasons := reasons ++ ["package-named-mock"]
   -- inside the guard the theorems predict a well-formed file; outside it the model makes no prediction
   -- discovery: the interfaces are package-level type specs; `localTypes` are declared inside a function body,
   -- `litTypes` inside a function literal of a package-level initialiser
